@@ -130,6 +130,14 @@ claim("C20", "other", "guard/outcome pairing on the typed views of both parsers,
       "Partial: equality of the results as values is behavioural and not decided. Trusted: C03, C19; the property's 'at most one section of each kind' quantifier.",
       "DESIGN.md 5/C20")
 
+claim("C07", "other", "who-may-call / typestate rules on the stream cache, dominance rule on load_bytes, canonicalised provenance comparison of the slice / stream accessor pairs",
+      "Three structural necessary conditions of equivalence: (1) the cache is keyed by (start, end) of the request at every access, only load_bytes inserts, only open_stream clears, "
+      "every get_bytes follows a successful load of exactly that range; (2) every read is read_exact of range.len() bytes after a successful absolute seek to range.start; (3) 11 accessor pairs "
+      "have equal success outcomes (and, for section_data, equal guards) after mapping both parsers to a common vocabulary (FILE ranges, SHDR_AT, FIRST-of-type), modulo a frozen, read-confirmed "
+      "list of permitted differences recorded in the evidence.",
+      "Partial by nature: observational equivalence over all inputs x accessor histories x legal Read+Seek behaviours is behavioural and NOT decided. Trusted: std's read_exact; C03/C05/C13/C20 for per-parser clauses.",
+      "DESIGN.md 5/C07")
+
 for pid in ["C01", "C02", "C03", "C04", "C05", "C06", "C07", "C08", "C09", "C10", "C11", "C12", "C13", "C14", "C15", "C16", "C17", "C18", "C20"]:
     if pid not in CLAIMS:
         na(pid, "static rule designed (DESIGN.md section 5) but its checker is not built yet in this revision; not claimed until it runs silent on the tree and fires on control mutants")
